@@ -159,6 +159,11 @@ pub fn snapshot(root: &Path) -> io::Result<Snapshot> {
     }
     fn walk(out: &mut Snapshot, path: &Path, apath: &str) -> io::Result<()> {
         let md = fs::symlink_metadata(path)?;
+        let ft = md.file_type();
+        if !(ft.is_dir() || ft.is_symlink() || ft.is_file()) {
+            // fifos, sockets, device nodes: not part of what a backup holds (and not to be read)
+            return Ok(());
+        }
         let node = node_of(path, &md)?;
         let is_dir = node.kind == Kind::Dir;
         out.insert(apath.to_string(), node);
@@ -807,4 +812,22 @@ pub fn add_wide_and_deep(spec: &mut Snapshot, rng: &mut Rng, block: usize, max_p
         spec.insert(deep.clone(), Node::dir());
     }
     spec.insert(format!("{deep}/bottom"), Node::file(gen_content(rng, 10)));
+}
+
+/// Put a fifo and a unix socket into `dir` (which must exist). Returns the apaths created.
+pub fn add_special_files(root: &Path, dir_apath: &str) -> Vec<String> {
+    let dir = if dir_apath == "/" { root.to_path_buf() } else { root.join(&dir_apath[1..]) };
+    let mut made = Vec::new();
+    let fifo = dir.join("zz-fifo");
+    let c = std::ffi::CString::new(fifo.to_string_lossy().as_bytes()).unwrap();
+    // SAFETY: plain libc call with a valid NUL-terminated path
+    if unsafe { libc::mkfifo(c.as_ptr(), 0o644) } == 0 {
+        made.push(child_of(dir_apath, "zz-fifo"));
+    }
+    let sock = dir.join("zz-sock");
+    if let Ok(l) = std::os::unix::net::UnixListener::bind(&sock) {
+        drop(l);
+        made.push(child_of(dir_apath, "zz-sock"));
+    }
+    made
 }
